@@ -292,6 +292,8 @@ fn spawn_async_ao_list_in_task<'a, SE: extensions::ShellExtensions>(
     }
 
     let join_handle = tokio::spawn(async move {
+        #[cfg(feature = "verif-hooks")]
+        crate::verif::pause("job.task_start");
         cloned_ao_list
             .execute(&mut cloned_shell, &cloned_params)
             .await
@@ -527,6 +529,17 @@ async fn spawn_pipeline_processes(
         }
 
         spawn_results.push_back(spawn_result);
+
+        #[cfg(feature = "verif-hooks")]
+        {
+            crate::verif::event(
+                "pipeline.stage_spawned",
+                &format!("\"index\":{current_pipeline_index},\"len\":{pipeline_len}"),
+            );
+            if pipeline_len > 1 {
+                crate::verif::pause("pipeline.stage_spawned");
+            }
+        }
     }
 
     Ok(spawn_results)
@@ -544,6 +557,11 @@ async fn wait_for_pipeline_processes_and_update_status(
 
     // Clear our the pipeline status so we can start filling it out.
     shell.last_pipeline_statuses_mut().clear();
+
+    #[cfg(feature = "verif-hooks")]
+    if pipeline.seq.len() > 1 {
+        crate::verif::pause("pipeline.before_wait");
+    }
 
     while let Some(child) = process_spawn_results.pop_front() {
         let wait_result = if !stopped_children.is_empty() {
